@@ -241,6 +241,26 @@ theorem C05_former_rows_witnesses_are_errors :
 example : iterate 4 0 [0, 0, 0, 2, 0, 0, 0, 1, 0, 0, 0, 1, 0, 1, 107, 0, 1, 116, 0, 1, 99, 0, 9, 0, 0, 0, 2,
                              0, 0, 0, 1, 7, 255, 255, 255, 255] = some (.ok 2) := by decide +kernel
 
+/-! ### allocation of the row consumers (Scan loops, Scanner, MapScan, SliceMap, RowData) -/
+
+/-- however many rows a ROWS frame announces, a consumer gets through at most one row per 4 bytes of the
+row set it received (one described column at least): the announced count costs nothing by itself -/
+theorem C05_rows_scanned_le_body (m : Meta) (hc : m.cols ≠ []) (numRows : Nat) (rest : Bytes) :
+    4 * (scanAll m numRows rest).rows ≤ rest.length := C05Rows.rows_scanned_le_body m hc numRows rest
+
+/-- ALLOCATION BOUND for the row consumers: the model's allocation counter (one unit per destination and
+row scanned, plus the bytes of the row set) is at most (|rows|/4 + 1)·(destinations + 1) + |rows|, for every
+announced row count (spec-backed op `alloc rows …`: the real code's bytes allocated are compared with
+this bound times generous per-unit constants) -/
+theorem C05_rows_alloc_bound (m : Meta) (hc : m.cols ≠ []) (numRows : Nat) (rest : Bytes) :
+    consumeUnits m numRows rest ≤ consumeBound m rest := C05Rows.consumeUnits_le_bound m hc numRows rest
+
+/-- non-vacuity / the witness of the seeded change C05-2: one int column, 2^24 rows announced, 6 bytes of
+row set: 2 allocation units per row for at most 1 + 1 rows -/
+example : (match parseFrame 4 true 0 8 [0,0,0,2, 0,0,0,1, 0,0,0,1, 0,2,107,115, 0,1,116, 0,1,99, 0,9, 1,0,0,0, 0,0,0,8, 0,1] with
+    | .ok (.rows m n) st => (n, consumeUnits m n st.buf, consumeBound m st.buf)
+    | _ => (0, 0, 0)) = (16777216, 8, 10) := by decide +kernel
+
 /-! ### MapScan / SliceMap destinations (Iter.RowData → helpers.go goType)
 
 History: with /repo at 19ec182 this check found that a map type whose key is not comparable as a Go
